@@ -53,6 +53,16 @@ PROFILES = {
         "stop_on_error": False,
         "wl_kwargs": 0.0,
     },
+    # device-independent operations for the EVO/Fluent lock-step (C16)
+    "lockstep": {
+        "ops": {"aspirate": 3, "dispense": 3, "transfer": 8, "distribute": 3, "comment": 1, "wash": 1, "flush": 0.5, "commit": 1, "decontaminate": 0.3},
+        "aims": {"ok": 8, "exact": 1, "ulp": 1, "beyond": 3, "huge": 0.5, "inf": 0.3, "zero": 1, "cumulative": 1},
+        "fault_rate": 0.3,
+        "comps": 0.6,
+        "stop_on_error": False,
+        "wl_kwargs": 0.3,
+        "split_bias": 0.35,
+    },
     # history (C11)
     "history": {
         "ops": {"add": 2, "remove": 2, "aspirate": 2, "dispense": 2, "transfer": 8, "distribute": 2, "evo_aspirate": 1, "evo_dispense": 1},
@@ -414,6 +424,12 @@ class Engine:
             return self.gen_transfer()
         if kind == "distribute":
             return self.gen_distribute() or self.gen_transfer()
+        if kind == "comment":
+            return {"op": "comment", "text": self.rng.choice(["note", "µ-step", "two\nlines", "", "  padded  "])}
+        if kind == "wash":
+            return {"op": "wash", "scheme": self.rng.choice([1, 2, 3, 4])}
+        if kind in ("flush", "commit", "decontaminate"):
+            return {"op": kind}
         return self.gen_evo(kind) or self.gen_single("dispense" if kind == "evo_dispense" else "aspirate")
 
     # -- main loop -------------------------------------------------------------------------------
